@@ -395,6 +395,22 @@ class GraphInitializers(collections.UserDict[str, "_core.Value"]):
 
     __copy__ = copy
 
+    def __or__(self, other):
+        """Return a plain ``dict`` with the merged entries; nothing is modified."""
+        if isinstance(other, collections.UserDict):
+            other = other.data
+        if not isinstance(other, Mapping):
+            return NotImplemented
+        return self.data | dict(other)
+
+    def __ror__(self, other):
+        """Return a plain ``dict`` with the merged entries; nothing is modified."""
+        if isinstance(other, collections.UserDict):
+            other = other.data
+        if not isinstance(other, Mapping):
+            return NotImplemented
+        return dict(other) | self.data
+
     # ------------------------------------------------------------------
     # Tensor-centric convenience accessors
     #
